@@ -34,8 +34,11 @@ def shape(kind, i, c0, c1):
         ps = [("a", {"typ": "float", "doc": "first arg", "default": 0.5}), ("b", {"typ": "bool", "doc": "second arg", "default": i > 0})]
     elif kind == 2:
         ps = [("a", {"typ": "Optional[int]", "doc": "first arg", "default": None}), ("b", {"typ": "int", "doc": "second arg", "default": i})]
-    else:
+    elif kind == 3:
         ps = [("a", {"typ": "Literal['np', 'tf']", "doc": "first arg", "default": "np"}), ("b", {"typ": "int", "doc": "second arg", "default": i})]
+    else:
+        ps = [("a", {"typ": "Optional[bool]", "doc": "first arg", "default": i > 0}), ("b", {"typ": "Optional[float]", "doc": "second arg", "default": 0.0 if i < 0 else 2.5}),
+              ("c", {"typ": "Optional[str]", "doc": "third arg", "default": "t" if i == 0 else "s"})]
     return {"name": "C", "doc": "Header line.", "type": "static", "params": OrderedDict(ps), "returns": None}
 
 
@@ -61,7 +64,8 @@ def _chain(k, kind):
     return body
 
 
-KINDS = {0: "a:int=i (i in -3..3), b:str='x y'", 1: "a:float=0.5, b:bool", 2: "a:Optional[int]=None, b:int=i", 3: "a:Literal['np','tf']='np', b:int=i"}
+KINDS = {0: "a:int=i (i in -3..3), b:str='x y'", 1: "a:float=0.5, b:bool", 2: "a:Optional[int]=None, b:int=i", 3: "a:Literal['np','tf']='np', b:int=i",
+         4: "a:Optional[bool]=True/False, b:Optional[float]=0.0/2.5, c:Optional[str]='t'/'s'"}
 for _k, _tier, _T in ((2, "quick", 400), (3, "thorough", 3000)):
     for _kind in KINDS:
         _args = dict({"i": R(-3, 3), "c0": R(97, 97), "c1": R(97, 97)}, **{"h%d" % j: R(0, len(FORMATS) - 1) for j in range(_k)})
